@@ -1180,11 +1180,39 @@ mod srvlevel {
                    // socket-activation caller would hand it over
     }
 
+    /// the builder's setters, in the order a scenario calls them (`calls=timeout,blocking,…`; each changes its own setting only)
+    #[derive(Clone, Copy, PartialEq, Debug)]
+    enum Setter {
+        Timeout,  // shutdown_timeout(<the scenario's timeout>)
+        Blocking, // worker_max_blocking_threads(8)
+        Limit,    // max_concurrent_connections(64)
+        Backlog,  // backlog(512)
+    }
+
     fn server_on(lst: Lst, workers: usize, timeout: Option<u64>, signals: bool, sysexit: bool, served: Arc<AtomicUsize>, nonce: [u8; 8]) -> std::io::Result<(actix_server::Server, Target)> {
+        server_with(None, lst, workers, timeout, signals, sysexit, served, nonce)
+    }
+
+    #[allow(clippy::too_many_arguments)]
+    fn server_with(calls: Option<Vec<Setter>>, lst: Lst, workers: usize, timeout: Option<u64>, signals: bool, sysexit: bool, served: Arc<AtomicUsize>, nonce: [u8; 8]) -> std::io::Result<(actix_server::Server, Target)> {
         use actix_service::fn_service;
         let mut b = actix_server::Server::build().workers(workers);
-        if let Some(t) = timeout {
-            b = b.shutdown_timeout(t); // None: the default configuration
+        match calls {
+            None => {
+                if let Some(t) = timeout {
+                    b = b.shutdown_timeout(t); // None: the default configuration
+                }
+            }
+            Some(calls) => {
+                for c in calls {
+                    b = match c {
+                        Setter::Timeout => b.shutdown_timeout(timeout.unwrap_or(30)),
+                        Setter::Blocking => b.worker_max_blocking_threads(8),
+                        Setter::Limit => b.max_concurrent_connections(64),
+                        Setter::Backlog => b.backlog(512),
+                    };
+                }
+            }
         }
         if !signals {
             b = b.disable_signals();
@@ -1359,6 +1387,7 @@ mod srvlevel {
         gap2: u64,
         late: Option<bool>, // `late=g|f`: one more stop() after everything has completed (its future must resolve, too)
         lst: Lst,
+        calls: Option<Vec<Setter>>, // `calls=<setter>,…`: the builder's setters in this order (with `timeout` iff a time-out is configured)
         flood: usize, // `flood=N` (with paused=1, a unix listener): N clients queue up in the listen backlog while the server is
         // paused; resume() and stop() are called back to back: the accept thread is busy when it is told to stop
         sysexit: bool, // `sysexit=1`: the builder's system_exit() (stop the actix System after the shutdown — there is none here)
@@ -1419,6 +1448,25 @@ mod srvlevel {
             Some("1") => true,
             _ => return None,
         };
+        let calls: Option<Vec<Setter>> = match kv(ws, "calls") {
+            None => None,
+            Some(t) => {
+                let v = t
+                    .split(',')
+                    .map(|x| match x {
+                        "timeout" => Some(Setter::Timeout),
+                        "blocking" => Some(Setter::Blocking),
+                        "limit" => Some(Setter::Limit),
+                        "backlog" => Some(Setter::Backlog),
+                        _ => None,
+                    })
+                    .collect::<Option<Vec<_>>>()?;
+                if v.len() > 6 || v.iter().filter(|c| **c == Setter::Timeout).count() != timeout.is_some() as usize {
+                    return None;
+                }
+                Some(v)
+            }
+        };
         let flood = match kv(ws, "flood") {
             None => 0,
             Some(f) => super::num(f)?,
@@ -1426,7 +1474,7 @@ mod srvlevel {
         if flood > 2000 || (flood > 0 && (kv(ws, "paused") != Some("1") || lst == Lst::Tcp || kv(ws, "drop") == Some("1"))) {
             return None;
         }
-        Some(Scn { workers, timeout, graceful, holds, second, gap2, late, lst, flood, sysexit, dropfut: kv(ws, "drop") == Some("1"), paused: kv(ws, "paused") == Some("1") })
+        Some(Scn { workers, timeout, graceful, holds, second, gap2, late, lst, calls, flood, sysexit, dropfut: kv(ws, "drop") == Some("1"), paused: kv(ws, "paused") == Some("1") })
     }
 
     async fn scenario(sc: &Scn) -> Outcome {
@@ -1441,8 +1489,8 @@ mod srvlevel {
         // ports may be scarce when many checks run at once: retry
         let mut tries = 0;
         let (handle, addr, mut srv_done) = loop {
-            let (w, t, sv, l, se) = (sc.workers, sc.timeout, served.clone(), sc.lst, sc.sysexit);
-            match host_server(move || server_on(l, w, t, false, se, sv, nonce)) {
+            let (w, t, sv, l, se, cl) = (sc.workers, sc.timeout, served.clone(), sc.lst, sc.sysexit, sc.calls.clone());
+            match host_server(move || server_with(cl, l, w, t, false, se, sv, nonce)) {
                 Ok(x) => break x,
                 Err(e) if is_port_error(&e) && tries < 40 => {
                     tries += 1;
@@ -4124,6 +4172,11 @@ mod gen {
             // overlapping stops: the later ones are issued when the first has been taken off the channel; every future waits
             srv(&mut *w, "workers=1 timeout=5 mode=g holds=1500 second=g,f gap2=300");
             srv(&mut *w, "workers=2 timeout=2 mode=g holds=n,300 second=f,g gap2=400");
+            // the builder's setters in a given order: the stop honours the CONFIGURED time-out (a connection is held beyond it)
+            // whatever was set after it — each setter changes its own setting only
+            srv(&mut *w, "workers=1 timeout=2 mode=g holds=n calls=timeout,blocking");
+            srv(&mut *w, "workers=2 timeout=1 mode=g holds=n,300 calls=blocking,timeout,limit,backlog");
+            srv(&mut *w, "workers=1 timeout=1 mode=g holds=n calls=timeout,limit,backlog,blocking");
             // system_exit() on a plain Tokio runtime (there is no actix System to stop): the Server future resolves all the same
             srv(&mut *w, "workers=1 timeout=1 mode=g holds=300 sysexit=1");
             srv(&mut *w, "workers=2 timeout=5 mode=f holds=n sysexit=1 second=g");
